@@ -47,6 +47,9 @@ fn case<S: CtxSpec>(idx: usize, values: &[String]) -> Value {
 }
 
 pub fn run<S: CtxSpec>(cx: &mut Cx) {
+    if crate::routes::abandoned(cx) {
+        return;
+    }
     let t = cx.cfg.tier;
     set_tier(t);
     if !cx.case(SUB_SETUP) {
